@@ -151,8 +151,24 @@ pub fn run(ctx: &mut Ctx) -> (String, Value, Vec<String>) {
     let mut samples = vec![];
     // (a) traces
     let (maxlen, tmax) = if quick { (5, 6) } else { (6, 8) };
-    for t in traces(maxlen, tmax) {
-        for pj in 1..=maxlen {
+    // short traces exhaustively, then long ones: every sequence of inter-arrival gaps from
+    // {0, 2, 9} of length 8 (quick) / {0, 1, 4, 13} of length 9 (thorough) — a dozen events with
+    // tight clusters completed late, wide prefixes
+    let mut all_traces: Vec<(Vec<u64>, Vec<usize>)> = traces(maxlen, tmax).into_iter().map(|t| (t, (1..=maxlen).collect())).collect();
+    {
+        let gaps: Vec<u64> = if quick { vec![0, 2, 9] } else { vec![0, 1, 4, 13] };
+        let len = if quick { 8 } else { 9 };
+        for idx in 0..(gaps.len() as u64).pow(len as u32) {
+            let sel = crate::props::uni::product_index(idx, gaps.len(), len);
+            let mut t = vec![0u64];
+            for k in sel {
+                t.push(t.last().unwrap() + gaps[k]);
+            }
+            all_traces.push((t, vec![2, 5, 8, 12]));
+        }
+    }
+    for (t, pjs) in all_traces {
+        for pj in pjs {
             let rd = ref_dmin(&t, pj);
             // representability: a Curve needs at least one entry and a positive largest distance
             if rd.is_empty() || *rd.last().unwrap() == 0 {
